@@ -20,6 +20,13 @@ Record consts_facts : Prop := {
 Lemma consts_ok : consts_facts.
 Proof. constructor; vm_compute; repeat split; congruence. Qed.
 
+Lemma In_upd_idx {A} (l : list A) n v x d : In x (upd l n v) -> x = v \/ exists j, j <> n /\ (j < length l)%nat /\ nth j l d = x.
+Proof.
+  revert n; induction l as [|h l IH]; intros [|n] H; cbn in *; try contradiction.
+  - destruct H as [<-|H]; auto. right. destruct (In_nth _ _ d H) as (j & A1 & A2). exists (S j). repeat split; auto; lia.
+  - destruct H as [<-|H]. + right. exists 0%nat. repeat split; auto; lia.
+    + apply IH in H. destruct H as [->|(j & A1 & A2 & A3)]; auto. right. exists (S j). repeat split; auto; lia.
+Qed.
 (* relay operation = 10 us + RELAY_DOUBLE_TRY + 10 us of busy waiting *)
 Definition OP : Z := 10 + DOUBLE_TRY_US + 10.
 
@@ -215,6 +222,34 @@ Proof.
       * intros x [<-|Hin]; auto. destruct (active y) eqn:E; auto. destruct (Hy eq_refl); lia.
 Qed.
 
+(* exact duration of the operations *)
+Lemma now_save_state ms s : now (save_state ms s) = now s.
+Proof. unfold save_state. destruct (0 <? ms); reflexivity. Qed.
+Lemma now_gpio_write p v s : now (gpio_write p v s) = now s.
+Proof. unfold gpio_write. destruct (Bool.eqb _ _); reflexivity. Qed.
+Lemma now_relay_core port b s :
+  now (delay_us 10 (delay_us DOUBLE_TRY_US (gpio_write port b (delay_us 10 s)))) = now s + OP.
+Proof. cbn [now delay_us set_now]. rewrite now_gpio_write. cbn [now delay_us set_now]. unfold OP. lia. Qed.
+Lemma now_relay_hi c port hi s : now (relay_hi c port hi s) = now s + OP.
+Proof.
+  unfold relay_hi.
+  destruct (find_gpio (c_relays c) 0 port) as [[a r]|]; [|apply now_relay_core].
+  destruct (_ || _); [|apply now_relay_core].
+  rewrite now_save_state. cbn [now set_ram_relay]. apply now_relay_core.
+Qed.
+Lemma now_do_call k s : now (do_call k s) = now s.
+Proof. unfold do_call. destruct (_ <? _); reflexivity. Qed.
+Lemma now_value_changed ch v s : now (value_changed ch v s) = now s.
+Proof. unfold value_changed. destruct (reg s); auto using now_do_call. Qed.
+Lemma now_set_result ch sd ok s : now (set_result ch sd ok s) = now s.
+Proof. unfold set_result. destruct (conn s); auto using now_do_call. Qed.
+Lemma now_ext_changed c ch s : now (ext_changed c ch s) = now s.
+Proof. unfold ext_changed. destruct (reg s); auto. destruct (get_state _ _ _) as [[? ?] ?]. apply now_do_call. Qed.
+Lemma now_chan_set_value c port v ch s : now (fst (chan_set_value c port v ch s)) = now s + OP.
+Proof. unfold chan_set_value. cbn [fst]. rewrite now_value_changed. apply now_relay_hi. Qed.
+Lemma now_t2_set ch v s : now (t2_set ch v s) = now s.
+Proof. unfold t2_set. destruct (_ <? _); reflexivity. Qed.
+
 (* ---------- configuration and state invariants ---------- *)
 Record wf_cfg (c : cfg) : Prop := {
   wf_chan : forall r, In r (c_relays c) -> 0 <= r_chan r < 8;
@@ -255,6 +290,16 @@ Proof.
   constructor; unfold slot_at, TmrOK, ClockOK; try rewrite pa_slots0; try rewrite pa_delay0; try rewrite pa_tcd0; auto.
   - intros. eapply SlotOK_passive; eauto.
 Qed.
+Lemma Inv_ext s s' :
+  slots s' = slots s -> delay s' = delay s -> tcd s' = tcd s -> cnt0 s' = cnt0 s -> tb s' = tb s ->
+  now s' = now s -> upc s' = upc s -> upl s' = upl s -> Inv s -> Inv s'.
+Proof.
+  intros E1 E2 E3 E4 E5 E6 E7 E8 []. unfold TmrOK, ClockOK, slot_at in *.
+  constructor; unfold TmrOK, ClockOK, slot_at; rewrite ?E1, ?E2, ?E3, ?E4, ?E5, ?E6, ?E7, ?E8; auto.
+  intros x Hx Ax. destruct (i_ok0 x Hx Ax). constructor; unfold rd in *; rewrite ?E4, ?E5, ?E6; auto.
+Qed.
+Lemma Inv_emit o s : Inv s -> Inv (emit o s).
+Proof. apply Inv_ext; reflexivity. Qed.
 Lemma NW_passive s s' : passive s s' -> NW s' -> NW s.
 Proof. intros [] H. unfold NW in *. rewrite pa_cnt1, pa_tb0 in H. lia. Qed.
 
@@ -365,4 +410,162 @@ Proof.
     repeat split; auto; try lia. apply in_or_app; auto.
   - intros x H A. apply in_or_app; right; auto.
   - rewrite fins_app, fins_noghost by auto. auto.
+Qed.
+
+(* ---------- one slot evaluation (body of the loop of supla_esp_countdown_timer_cb) ---------- *)
+Definition evald (lo hi : Z) (s0 : st) (x y : slot) : Prop :=
+  (active x = false /\ y = x) \/
+  (active x = true /\ exists tl, lo <= tl <= hi /\
+     ((rd s0 tl - s_last x < s_left x /\ y = slot_run x (s_left x - (rd s0 tl - s_last x)) (rd s0 tl) tl) \/
+      (s_left x <= rd s0 tl - s_last x /\ y = slot_release x (rd s0 tl) tl))).
+
+Record frame (s s' : st) : Prop := {
+  fr_cnt0 : cnt0 s' = cnt0 s; fr_tb : tb s' = tb s; fr_chfl : chfl s' = chfl s; fr_time2 : time2 s' = time2 s;
+  fr_li : li s' = li s; fr_now : now s <= now s';
+  fr_outs : exists add, outs s' = add ++ outs s
+}.
+Lemma frame_refl s : frame s s.
+Proof. constructor; try reflexivity; try lia. exists []; auto. Qed.
+Lemma frame_trans a b c : frame a b -> frame b c -> frame a c.
+Proof.
+  intros [] []. constructor; try congruence; try lia.
+  destruct fr_outs0 as (x & E1), fr_outs1 as (y & E2). exists (y ++ x). rewrite E2, E1, app_assoc; auto.
+Qed.
+Lemma frame_passive s s' : passive s s' -> frame s s'.
+Proof. intros []. constructor; auto. destruct pa_outs0 as (a & E & _). exists a; auto. Qed.
+Lemma NW_frame s s' : frame s s' -> NW s' -> NW s.
+Proof. intros [] H. unfold NW in *. rewrite fr_cnt1, fr_tb0 in H. lia. Qed.
+
+Lemma u64_small z : 0 <= z < 18446744073709551616 -> z mod 18446744073709551616 = z.
+Proof. intros; apply Z.mod_small; lia. Qed.
+
+Lemma rd_bound s t : 0 <= cnt0 s -> tb s <= t -> cnt0 s + (t - tb s) < 4294967296 -> 0 <= rd s t < 4294968.
+Proof.
+  intros. unfold rd. split. - apply Z.div_pos; lia. - apply Z.div_lt_upper_bound; lia.
+Qed.
+
+Definition finish_of (x : slot) (tcb u : Z) : out :=
+  GFinish tcb (s_chan x) (s_target x) (g_t0 x) (g_dur x) (g_u0 x) u.
+
+Lemma cb_slot_step c a s :
+  (a < 8)%nat -> Inv s -> Tr s -> NW s ->
+  let s' := cb_slot c (Z.of_nat a) s in
+  let x := slot_at s a in
+  (NW s' -> Inv s' /\ Tr s') /\ frame s s' /\ delay s' = delay s /\ tcd s' = tcd s /\ now s' <= now s + OP /\
+  (forall i, (i < 8)%nat -> i <> a -> slot_at s' i = slot_at s i) /\
+  evald (now s) (now s) s x (slot_at s' a) /\
+  (exists add, outs s' = add ++ outs s /\
+     ((Forall noghost add /\ (active (slot_at s' a) = true \/ active x = false)) \/
+      (active x = true /\ s_chan (slot_at s' a) = 255 /\
+       exists a1, add = finish_of x (now s) (rd s (now s)) :: a1 /\ Forall noghost a1))).
+Proof.
+  intros Ha I T N. cbv zeta. unfold cb_slot. rewrite Nat2Z.id. fold (slot_at s a).
+  set (x := slot_at s a).
+  assert (OPpos : 0 <= OP) by (destruct consts_ok; unfold OP; lia).
+  destruct (active x) eqn:Hact.
+  2:{ split; [auto|]. split; [apply frame_refl|]. split; [auto|]. split; [auto|]. split; [lia|]. split; [auto|].
+      split; [left; auto|]. exists []; split; auto. }
+  pose proof (i_clk _ I) as CK.
+  destruct (passive_uptime s CK N) as (P1 & U & N1 & O1).
+  destruct (uptime_msec s) as [s1 u] eqn:EU. cbn [fst snd] in *. subst u.
+  assert (Hin : In x (slots s)) by (apply slot_at_in; rewrite (i_len _ I); auto).
+  pose proof (i_ok _ I x Hin Hact) as SO. destruct SO as [Sch Sleft Sdur Sacct Slast Su0 St].
+  destruct CK as (Cu & Cl & C0 & Ct). destruct St as (T1 & T2 & T3).
+  pose proof (rd_mono s _ _ T3) as Mono. rewrite <- Slast in Mono.
+  assert (RB : 0 <= rd s (now s) < 4294968) by (apply rd_bound; unfold NW in N; lia).
+  assert (RL : 0 <= s_last x) by (rewrite Slast; unfold rd; apply Z.div_pos; lia).
+  rewrite u64_small by lia.
+  set (u := rd s (now s)) in *.
+  assert (I1 : Inv s1) by (eapply Inv_passive; eauto).
+  assert (Tr1 : Tr s1) by (eapply Tr_passive; eauto).
+  assert (SL1 : slots s1 = slots s) by apply P1.
+  destruct (s_left x <=? u - s_last x) eqn:Ex.
+  - (* expired *)
+    apply Z.leb_le in Ex.
+    destruct (chan_set_value c (s_gpio x) _ (s_chan x) s1) as [s3 ok] eqn:ECS.
+    pose proof (passive_chan_set_value c (s_gpio x) (if s_target x =? 0 then LO else HI) (s_chan x) s1) as P3.
+    pose proof (now_chan_set_value c (s_gpio x) (if s_target x =? 0 then LO else HI) (s_chan x) s1) as Q3.
+    rewrite ECS in P3, Q3. cbn [fst] in P3, Q3.
+    pose proof (passive_t2_set (s_chan x) 0 s3) as P4. set (s4 := t2_set (s_chan x) 0 s3) in *.
+    pose proof (passive_trans _ _ _ P1 (passive_trans _ _ _ P3 P4)) as P14.
+    assert (S4 : slots s4 = slots s) by apply P14.
+    assert (Now4 : now s4 = now s + OP) by (unfold s4; rewrite now_t2_set; lia).
+    set (gf := GFinish (now s1) (s_chan x) (s_target x) (g_t0 x) (g_dur x) (g_u0 x) u).
+    assert (I4 : Inv s4) by (eapply Inv_passive; eauto).
+    assert (T4 : Tr s4) by (eapply Tr_passive; eauto).
+    assert (Early : (g_dur x - 1) * 1000 < now s - g_t0 x).
+    { apply rd_diff_lo with (s := s). rewrite <- Su0. fold u. lia. }
+    split; [|split; [|split; [|split; [|split; [|split; [|split]]]]]].
+    + intros N'. split.
+      * apply (Inv_set_slot (emit gf s4)); auto. apply Inv_emit; auto.
+      * destruct T4. constructor; cbn [outs set_slots slots now emit set_outs].
+        -- intros * [E|H].
+           ++ unfold gf in E. injection E as <- <- <- <- <- <- <-.
+              split; [rewrite N1; lia|]. split; [lia|]. split; [lia|]. split.
+              ** right. apply tr_arm0; auto. rewrite S4; auto.
+              ** intros y Hy Ay Ey. apply (In_upd_idx _ _ _ _ slot_free) in Hy. destruct Hy as [->|(j & Nj & Hj & <-)]; [discriminate|].
+                 rewrite S4 in *. rewrite (i_len _ I) in Hj. exfalso. apply Nj.
+                 apply (i_uniq _ I); auto. unfold active in Ay. apply andb_true_iff in Ay. destruct Ay as [Ay _].
+                 apply negb_true_iff, Z.eqb_neq in Ay. auto.
+           ++ destruct (tr_fin0 _ _ _ _ _ _ _ H) as (A & B & C & D & G).
+              split; [auto|]. split; [auto|]. split; [auto|]. split; [right; auto|].
+              intros y Hy Ay Ey. apply In_upd in Hy. destruct Hy as [->|Hy]; [discriminate|]. apply G; auto.
+        -- intros y Hy Ay. apply In_upd in Hy. destruct Hy as [->|Hy]; [discriminate|]. right. apply tr_arm0; auto.
+        -- cbn [fins]. constructor; auto. intros Hf. apply in_fins in Hf.
+           destruct Hf as (tcb & tg & dur & u0 & u' & Hf).
+           destruct (tr_fin0 _ _ _ _ _ _ _ Hf) as (A & B & C & D & G).
+           assert (tcb <= g_t0 x) by (apply G; auto; rewrite S4; auto). lia.
+    + eapply frame_trans; [apply frame_passive; exact P14|].
+      constructor; cbn; try reflexivity; try lia. eexists [_]; reflexivity.
+    + cbn [delay set_slots emit set_outs]. apply P14.
+    + cbn [tcd set_slots emit set_outs]. apply P14.
+    + cbn [now set_slots emit set_outs]. lia.
+    + intros i Hi Ne. unfold slot_at. cbn [slots set_slots emit set_outs]. rewrite nth_upd_ne by auto. rewrite S4. auto.
+    + right. split; auto. exists (now s). split; [lia|]. right. split; auto.
+      unfold slot_at. cbn [slots set_slots emit set_outs]. rewrite nth_upd_eq by (rewrite S4, (i_len _ I); auto). rewrite N1. reflexivity.
+    + destruct (pa_outs _ _ P14) as (a14 & E14 & F14).
+      exists (gf :: a14). split.
+      * cbn [outs set_slots emit set_outs]. rewrite E14. reflexivity.
+      * right. split; auto. split.
+        { unfold slot_at. cbn [slots set_slots emit set_outs]. rewrite nth_upd_eq by (rewrite S4, (i_len _ I); auto). reflexivity. }
+        exists a14. unfold gf, finish_of. rewrite N1. auto.
+  - (* still running *)
+    apply Z.leb_gt in Ex.
+    rewrite u32_small by lia.
+    pose proof (passive_t2_set (s_chan x) (s_left x - (u - s_last x)) s1) as P3.
+    set (s3 := t2_set _ _ s1) in *.
+    assert (S3 : slots s3 = slots s) by (rewrite (pa_slots _ _ P3); auto).
+    assert (Now3 : now s3 = now s) by (unfold s3, t2_set; destruct (_ <? _); cbn; auto).
+    pose proof (passive_trans _ _ _ P1 P3) as P13.
+    set (y := slot_run x (s_left x - (u - s_last x)) u (now s1)).
+    assert (Ay : active y = true).
+    { unfold active, y; cbn. unfold active in Hact. apply andb_true_iff in Hact. destruct Hact as [A B].
+      rewrite A. cbn. apply Z.ltb_lt. lia. }
+    split; [|split; [|split; [|split; [|split; [|split; [|split]]]]]].
+    + intros N'. assert (I3 : Inv s3) by (eapply Inv_passive; eauto).
+      assert (T3' : Tr s3) by (eapply Tr_passive; eauto).
+      split.
+      * apply Inv_set_slot; auto. right. split; auto. split.
+        -- unfold y. constructor; cbn; try lia.
+           ++ rewrite N1. unfold rd. rewrite (pa_cnt0 _ _ P13), (pa_tb _ _ P13). reflexivity.
+           ++ unfold rd. rewrite (pa_cnt0 _ _ P13), (pa_tb _ _ P13). apply Su0.
+           ++ rewrite (pa_tb _ _ P13), N1, Now3. lia.
+        -- intros j Hj Ne E. unfold slot_at in E. rewrite S3 in E. unfold y in E; cbn in E.
+           apply Ne. apply (i_uniq _ I); auto. unfold slot_at. rewrite E. lia.
+      * destruct T3'. constructor; cbn [outs set_slots slots now].
+        -- intros * H. destruct (tr_fin0 _ _ _ _ _ _ _ H) as (A & B & C & D & G). repeat split; auto.
+           intros z Hz Az Ez. apply In_upd in Hz. destruct Hz as [->|Hz]; [|apply G; auto].
+           unfold y; cbn. apply (G x); auto. rewrite S3; auto.
+        -- intros z Hz Az. apply In_upd in Hz. destruct Hz as [->|Hz]; [|apply tr_arm0; auto].
+           unfold y; cbn. apply (tr_arm0 x); auto. rewrite S3; auto.
+        -- auto.
+    + eapply frame_trans; [apply frame_passive; exact P13|]. constructor; cbn; try reflexivity; try lia. exists []; auto.
+    + cbn [delay set_slots]. apply P13.
+    + cbn [tcd set_slots]. apply P13.
+    + cbn [now set_slots]. lia.
+    + intros i Hi Ne. unfold slot_at. cbn [slots set_slots]. rewrite nth_upd_ne by auto. rewrite S3. auto.
+    + right. split; auto. exists (now s). split; [lia|]. left. split; [fold u; lia|].
+      unfold slot_at. cbn [slots set_slots]. rewrite nth_upd_eq by (rewrite S3, (i_len _ I); auto). rewrite N1. reflexivity.
+    + destruct (pa_outs _ _ P13) as (a13 & E13 & F13). exists a13. split; [cbn; auto|].
+      left. split; auto. left. unfold slot_at. cbn [slots set_slots]. rewrite nth_upd_eq by (rewrite S3, (i_len _ I); auto). auto.
 Qed.
